@@ -90,6 +90,11 @@ def run(ctx):
             out = ramses.gen_output(r, exact=True, levelmin=r.randint(1, 2), levelmax=r.randint(22, 30), ncpu=r.randint(1, 2),
                                     chain=True, max_octs=10 ** 6)
             dist["deep_chain"] = dist.get("deep_chain", 0) + 1
+        elif i % 10 == 2:
+            # a stratified 3-D box: boundary regions along one or two axes only, so that nx, ny, nz differ
+            shape = r.choice([[1, 1, 3], [1, 3, 1], [3, 1, 1], [3, 3, 1], [3, 1, 3], [1, 3, 3]])
+            out = ramses.gen_output(r, exact=exact, ndim=3, nboundary=r.choice([1, 2]), nxs=shape, max_octs=40 if ctx.tier == "quick" else 90)
+            dist["stratified_box"] = dist.get("stratified_box", 0) + 1
         else:
             out = ramses.gen_output(r, exact=exact, max_octs=40 if ctx.tier == "quick" else 90)
         key = f"ndim{out['ndim']}:ncpu{out['ncpu']}:nb{out['nboundary']}:{'exact' if exact else 'tol'}"
@@ -101,7 +106,7 @@ def run(ctx):
             one_case(ctx, out, {}, exact, out_)
     out_.distribution = {"ndim:ncpu:nboundary:lane": dist}
     out_.rule = ("random well-formed outputs: AMR tree by recursive refinement between levelmin and levelmax (1..5; one case in ten is a deep zoom, a chain of single refined cells down to level 22..30), ndim 1-3, 1-5 cpus with "
-                 "random ownership, 0-2 boundary regions (nx=3), own octs in any order plus random ghost copies with poisoned values in every "
+                 "random ownership, 0-2 boundary regions (coarse grid 3 along all or only some axes), own octs in any order plus random ghost copies with poisoned values in every "
                  "file, noutput 1-5, 8/16-byte bound keys, 2-10 hydro variables (vector triples, pressure, radiative_energy_1, B_x_left.. in "
                  "the tolerant lane), optional gravity / RT / particles / sinks, unit_d/l/t and boxlen powers of two (exact lane, 3/4) or "
                  "arbitrary doubles (1/4), nout explicit or -1. Each case: writer vs Lean encode (skeleton + payload checksum), real loader vs "
